@@ -755,7 +755,7 @@ def failing_theorems(proof):
         src = open(os.path.join(vlib.LEAN, "SimuVerif", "Properties", "C18.lean")).read().splitlines()
     except OSError:
         return set()
-    starts = [(i + 1, m.group(1)) for i, l in enumerate(src) for m in [re.match(r"theorem (\w+)", l)] if m]
+    starts = [(i + 1, m.group(1) or "examples") for i, l in enumerate(src) for m in [re.match(r"theorem (\w+)|namespace Example", l)] if m]
     out = set()
     for e in proof.get("errors", []):
         m = re.search(r"Properties/C18\.lean:(\d+):", e)
@@ -779,6 +779,8 @@ def run(ctx):
     if gen_failed:
         V.fail_tie("proof", "the parameter tables can no longer be extracted from the source: %s" % "; ".join(g.get("error", "") for g in gen.values()))
     culprits = failing_theorems(proof)
+    if "examples" in culprits:
+        V.fail_tie("proof", "the concrete files of Properties/C18.lean (namespace Example) are no longer read as stated with the regenerated tables")
     for f in proof["failures"]:
         if culprits and f["theorem"].split(".")[-1] not in culprits and f["reason"].startswith("not checked"):
             continue      # same module as the theorem that broke: not itself in doubt
